@@ -399,6 +399,39 @@ pub fn prop_bool(v: &VariantSpec, k: &str) -> Option<bool> {
 }
 
 /// placeholders of a format literal (after removing `{{` / `}}`): the argument names
+/// every argument a literal refers to: the placeholders themselves and `name$` / `1$` width or precision arguments
+pub fn placeholder_args(lit: &str) -> Vec<String> {
+    let s = lit.replace("{{", "").replace("}}", "");
+    let mut out = placeholders(lit);
+    let mut start = None;
+    for (i, c) in s.char_indices() {
+        if c == '{' {
+            start = Some(i);
+        } else if c == '}' {
+            if let Some(st) = start.take() {
+                let inside = &s[st + 1..i];
+                if let Some(p) = inside.find(':') {
+                    let spec = &inside[p + 1..];
+                    let b: Vec<char> = spec.chars().collect();
+                    for (j, ch) in b.iter().enumerate() {
+                        if *ch == '$' {
+                            let mut k = j;
+                            while k > 0 && (b[k - 1].is_alphanumeric() || b[k - 1] == '_') {
+                                k -= 1;
+                            }
+                            let name: String = b[k..j].iter().collect();
+                            if !name.is_empty() {
+                                out.push(name);
+                            }
+                        }
+                    }
+                }
+            }
+        }
+    }
+    out
+}
+
 pub fn placeholders(lit: &str) -> Vec<String> {
     let s = lit.replace("{{", "").replace("}}", "");
     let mut out = Vec::new();
